@@ -313,6 +313,13 @@ private:
             this->_mask.red.shift   = detail::trailing_zeros( this->_mask.red.mask   );
             this->_mask.green.shift = detail::trailing_zeros( this->_mask.green.mask );
             this->_mask.blue.shift  = detail::trailing_zeros( this->_mask.blue.mask  );
+            
+            // the channels are scaled to 8 bits with << (8 - width)
+            io_error_if( this->_mask.red.width   == 0 || this->_mask.red.width   > 8
+                      || this->_mask.green.width == 0 || this->_mask.green.width > 8
+                      || this->_mask.blue.width  == 0 || this->_mask.blue.width  > 8
+                       , "Unsupported bit-field masks in BMP file."
+                       );
         }
         else if( this->_info._compression == bmp_compression::_rgb )
         {
